@@ -272,7 +272,7 @@ Definition run_tag (l : list tok) : list tok :=
   | None => bad_case
   | Some k =>
       match run_case k with
-      | [t] => if is_tag "ILL" t then [tag "ill"] else if is_tag "CRASH" t then [tag "crash"] else [tag "odd"]
+      | [t] => if is_tag "ILL" t then [tag "ill"] else [tag "odd"]
       | out =>
           let spec := check_case k out in
           let ops := k_ops k in
